@@ -42,7 +42,8 @@ RULE = ("every case of the TLA+ enumeration -- clip evaluations: 0..2 annotation
         "non-trivial = every case (each is a distinct arrangement); the evidence counts valid and invalid ones")
 TRUSTED_BASE = ["checks/c04.py (builds objects / dicts / JSON / AOEF documents from the case, calls constructors, "
                 "model_validate, model_validate_json, io.load; reads stored values back by uuid and as exact limbs)"]
-ASSUMPTIONS = ["a clip is identified by its uuid: a copy with added features / a tagged copy of its recording is the same clip",
+ASSUMPTIONS = ["'every annotated / predicted sound event exactly once' = one mention per distinct event, also when a list holds it twice",
+               "a clip is identified by its uuid (another uuid over the same span is another clip): a copy with added features / a tagged copy of its recording is the same clip",
                "AOEF documents are self-contained (every referenced id is defined): dangling references are C02's subject",
                "two clips are 'the same clip' iff they carry the same uuid (object identity is not required)",
                "Evaluation.score is unbounded in the library and not named by the statement's anchors: observed, not judged",
@@ -641,10 +642,11 @@ MANIFEST = {
              "store; MC_SchemaRel.tla transcribes the validators of soundevent.data step by step (before/after mode, list-vs-set "
              "duplicate tests, set comparisons, ge/le with NaN) and TLC proves accepted <=> Valid for every enumerated "
              "arrangement -- including annotations / predictions that wrap one and the same sound event, predictions that carry "
-             "an annotation's uuid, later-enriched copies of a clip (same uuid), and projects whose tasks and clip annotations are listed in every order with "
+             "an annotation's uuid, sound_events lists that hold an event twice, later-enriched copies of a clip (same uuid), another clip over the same "
+             "span (not the same clip), and projects whose tasks and clip annotations are listed in every order with "
              "clips annotated twice -- and path (the as-found before-mode clip "
-             "validator, a validator keyed on the wrapped sound event, a merged uuid pool, deep clip equality and a single-pass (generator) task "
-             "lookup are kept as controls with TLC's counterexamples); "
+             "validator, a validator keyed on the wrapped sound event, a merged uuid pool, a multiset (Counter) comparison, deep clip equality, a same-span "
+             "fall-through and a single-pass (generator) task lookup are kept as controls with TLC's counterexamples); "
              "every case is then built through the constructor, model_validate, model_validate_json (numbers also as numeric "
              "strings) and a hand-written AOEF document loaded with io.load, and TLC validates ConstructIffValid, PathsAgree "
              "and StoredWithinBounds on what was built and stored. Bounded-exhaustive plus random larger clip evaluations."),
